@@ -139,7 +139,7 @@ def _ashape(rnd, idx):
                 out.append({'k': 'on', 'ev': events.pop(), 'i': rnd.randrange(3)})
             elif r < 0.85 and not state['class']:
                 state['class'] = True
-                out.append({'k': 'class', 'is': [rnd.randrange(3) for _ in range(rnd.randint(1, 2))]})
+                out.append({'k': 'class', 'is': [rnd.randrange(3) for _ in range(rnd.randint(1, 2))], 'lit': idx % 2 == 1})
             else:
                 state['n'] += 1
                 out.append({'k': 'const', 'n': state['n']})
@@ -157,7 +157,10 @@ def _emit_attrs(items, ind, out):
         elif k == 'on':
             out.append('%s%s={ s[%d] }' % (t, n['ev'], n['i']))
         elif k == 'class':
-            out.append('%sclass={ %s }' % (t, ', '.join('k[%d]' % i for i in n['is'])))
+            ks = ['k[%d]' % i for i in n['is']]
+            if n.get('lit'):  # plain class names around the components: `class={ "btn", k[0], "wide" }`
+                ks = ['"sa"'] + ks + ['"sz"']
+            out.append('%sclass={ %s }' % (t, ', '.join(ks)))
         elif k == 'cond':
             out.append('%sif c[%d] {' % (t, n['i']))
             _emit_attrs(n['then'], ind + 1, out)
